@@ -2,6 +2,7 @@ import CalVerif.Prim.Wire
 import CalVerif.Model.Ptg
 import CalVerif.Spec.Formula
 import CalVerif.Model.XlsxFormula
+import CalVerif.Model.XlsbFormula
 /-! Driver for C14 (formula tokens → A1 text).
 
     requests (one per line) and replies:
@@ -15,6 +16,8 @@ import CalVerif.Model.XlsxFormula
                                           both encodings of `toRpn e` (xls framed with cce), `renderA1`, and the
                                           two model decoders run on those bytes
       `toks <ctx> | <tok>;<tok>;…`      → same reply shape for a raw token list (text = `-`)
+      `bsf <hex part> <ctx>`            → model of xlsb `worksheet_formula` up to `from_sparse` (`XlsbFormula.sheetFormulas`) on the bytes
+                                          of a worksheet part: `ok <row>,<col>,<hex text> …` | `err:<hex msg>` | `panic` | `fuel`
       `xf <event> <event> …`            → model of xlsx `next_formula` on a worksheet part's XML events (wire form of
                                           `verif_harness::xlsxw::ev_wire`): `ok <row>,<col>,<hex text> …` | `err:<class>`
     ctx    = `S=<hex>,<hex>… N=<hex>,… X=<int>,…`  sheet names / defined names (utf-8 hex; empty list: `S=`),
@@ -255,6 +258,14 @@ def handle (line : String) : String :=
   | ["str16", h] => match Wire.bytesOfHex h with
     | some bs => utf8Hex (decodeUtf16 (units bs 0 (bs.length / 2)))
     | none => "bad-request"
+  | "bsf" :: h :: ctx => match Wire.bytesOfHex h, parseCtx ctx with
+    | some bs, some c =>
+      match XlsbFormula.sheetFormulas c.xlsb bs with
+      | .ok cells => "ok" ++ String.join (cells.map fun x => s!" {x.1},{x.2.1},{utf8Hex x.2.2}")
+      | .err e => "err:" ++ Wire.hexOrDash e.toUTF8.toList
+      | .panic _ => "panic"
+      | .outOfFuel => "fuel"
+    | _, _ => "bad-request"
   | "xf" :: ws => xfReply ws
   | "enc" :: rest =>
     let (ctx, ex) := splitBar rest
